@@ -335,8 +335,24 @@ func (m *mrClassifier) stmt(s ast.Stmt) {
 	case *ast.ReturnStmt:
 		m.sens("return inside a map loop outside an error check: result depends on the first key visited")
 	case *ast.SwitchStmt:
+		if x.Init != nil {
+			m.stmt(x.Init)
+		}
+		if x.Tag != nil {
+			m.exprCalls(x.Tag)
+		}
 		for _, cl := range x.Body.List {
-			for _, y := range cl.(*ast.CaseClause).Body {
+			cc := cl.(*ast.CaseClause)
+			for _, e := range cc.List {
+				m.exprCalls(e)
+			}
+			// a case that leaves the function is the `if bad { err = …; return }` of an if-chain
+			body := &ast.BlockStmt{List: cc.Body}
+			if m.isErrExit(body) {
+				m.errExitBody(body)
+				continue
+			}
+			for _, y := range cc.Body {
 				m.stmt(y)
 			}
 		}
